@@ -1,0 +1,41 @@
+//go:build verif
+
+package evaluator
+
+import (
+	"sync/atomic"
+
+	"github.com/Syuparn/pangaea/ast"
+	"github.com/Syuparn/pangaea/object"
+)
+
+// verifEnabled turns on the monitor point at the top of Eval (build tag `verif`).
+const verifEnabled = true
+
+// VerifMonitor observes every Eval call while installed.
+// It is meant for single-goroutine verification workloads.
+type VerifMonitor struct {
+	// Enter is called before a node is evaluated.
+	Enter func(node ast.Node, env *object.Env)
+	// Leave is called after a node has been evaluated.
+	Leave func(node ast.Node)
+}
+
+var verifMonitor atomic.Pointer[VerifMonitor]
+
+// SetVerifMonitor installs m (nil uninstalls) and returns the previous monitor.
+func SetVerifMonitor(m *VerifMonitor) *VerifMonitor {
+	return verifMonitor.Swap(m)
+}
+
+func verifEnter(node ast.Node, env *object.Env) {
+	if m := verifMonitor.Load(); m != nil && m.Enter != nil {
+		m.Enter(node, env)
+	}
+}
+
+func verifLeave(node ast.Node) {
+	if m := verifMonitor.Load(); m != nil && m.Leave != nil {
+		m.Leave(node)
+	}
+}
